@@ -422,6 +422,19 @@ func grid(prop string, thorough bool) []Job {
 					sc.Attempts = []e1.Attempt{a}
 					jobs = append(jobs, Job{Sc: sc, Bound: 2})
 				}
+				for _, hn := range []string{"H15", "H15w"} {
+					// a JSON document with a nested value the decoder does not render
+					sc := base(fmt.Sprintf("%s/%s/undecodable-nested-json/%s", hn, pacing, fin), hn, pacing)
+					sc.Attempts = []e1.Attempt{att(simmaster.Plan{At: -1, Final: fin})}
+					jobs = append(jobs, Job{Sc: sc, Bound: 1})
+				}
+				// the lookup of a table that is announced but not changed fails
+				for k := 0; k < 2; k++ {
+					sc := base(fmt.Sprintf("H16/%s/mapper-error@%d/%s", pacing, k, fin), "H16", pacing)
+					sc.MapperFailAt = k
+					sc.Attempts = []e1.Attempt{att(simmaster.Plan{At: -1, Final: fin})}
+					jobs = append(jobs, Job{Sc: sc, Bound: 1})
+				}
 			}
 		}
 		if thorough {
@@ -481,14 +494,27 @@ func grid(prop string, thorough bool) []Job {
 				jobs = append(jobs, Job{Sc: sc, Bound: b})
 			}
 		}
-		// a file that ends with STOP (the next one is announced by the artificial
-		// ROTATE only) and transactions without events: connection lost at every packet
-		for _, pacing := range []string{"first", "lock"} {
-			for at := 2; at < len(served("H13")); at++ {
-				sc := base(fmt.Sprintf("H13/%s/retry/fin@%d", pacing, at), "H13", pacing)
-				sc.Attempts = []e1.Attempt{att(simmaster.Plan{At: at, Kind: "fin", Final: "silent"}), clean()}
+		// an undecodable rows event (before image of an UPDATE; a WRITE rows event):
+		// the attempt fails there, the next attempt must ask for the commit boundary in front of it
+		for _, hn := range []string{"H5", "H15", "H15w"} {
+			for _, pacing := range []string{"first", "lock"} {
+				sc := base(fmt.Sprintf("%s/%s/retry/undecodable", hn, pacing), hn, pacing)
+				sc.Attempts = []e1.Attempt{att(simmaster.Plan{At: -1, Final: "silent"}), att(simmaster.Plan{At: -1, Final: "silent"})}
 				sc.DelayBound = true
 				jobs = append(jobs, Job{Sc: sc, Bound: 1})
+			}
+		}
+		// a file that ends with STOP (the next one is announced by the artificial
+		// ROTATE only) and transactions without events: connection lost at every packet
+		for _, hn := range []string{"H13", "H18"} {
+			// (H18: a DDL that does not commit inside a transaction)
+			for _, pacing := range []string{"first", "lock"} {
+				for at := 2; at < len(served(hn)); at++ {
+					sc := base(fmt.Sprintf("%s/%s/retry/fin@%d", hn, pacing, at), hn, pacing)
+					sc.Attempts = []e1.Attempt{att(simmaster.Plan{At: at, Kind: "fin", Final: "silent"}), clean()}
+					sc.DelayBound = true
+					jobs = append(jobs, Job{Sc: sc, Bound: 1})
+				}
 			}
 		}
 	case "C07":
@@ -533,6 +559,23 @@ func handshakeJobs(thorough bool) []Job {
 					continue
 				}
 				sc := base(fmt.Sprintf("H13/%s/retry/fin@%d", pacing, at), "H13", pacing)
+				sc.ServerID = 9
+				sc.Attempts = []e1.Attempt{att(simmaster.Plan{At: at, Kind: "fin", Final: "silent"}), clean()}
+				jobs = append(jobs, Job{Sc: sc, Bound: bound})
+			}
+		}
+	}
+	// a statement the library does not classify inside a transaction (H4: SAVEPOINT),
+	// and the rotation history as a MariaDB 5.5 master with CRC32 writes it: the
+	// connection is lost at every packet, then a second attempt
+	for _, hn := range []string{"H4", "H2m", "H2q", "H18"} {
+		nh := len(served(hn))
+		for _, pacing := range []string{"first", "lock"} {
+			for at := 2; at < nh; at++ {
+				if !thorough && (at+len(pacing))%2 == 1 && hn != "H2q" {
+					continue
+				}
+				sc := base(fmt.Sprintf("%s/%s/retry/fin@%d", hn, pacing, at), hn, pacing)
 				sc.ServerID = 9
 				sc.Attempts = []e1.Attempt{att(simmaster.Plan{At: at, Kind: "fin", Final: "silent"}), clean()}
 				jobs = append(jobs, Job{Sc: sc, Bound: bound})
@@ -618,6 +661,14 @@ func aliasJobs(thorough bool) []Job {
 		for _, mode := range []string{"ok", "scribble"} {
 			// values that share their leading part (same second, other fraction)
 			sc := base(fmt.Sprintf("H11/%s/%s", pacing, mode), "H11", pacing)
+			a := clean()
+			a.HandlerMode = mode
+			sc.Attempts = []e1.Attempt{a}
+			jobs = append(jobs, Job{Sc: sc, Bound: bound})
+		}
+		for _, mode := range []string{"ok", "marshal", "scribble"} {
+			// statements of sessions with different character sets; values with NUL bytes
+			sc := base(fmt.Sprintf("H17/%s/%s", pacing, mode), "H17", pacing)
 			a := clean()
 			a.HandlerMode = mode
 			sc.Attempts = []e1.Attempt{a}
